@@ -509,6 +509,7 @@ impl Runner {
         sessions.insert("R4".into(), Box::new(Sess::<R4Ops> { slots: HashMap::new(), cfgs: HashMap::new(), chain: None }));
         sessions.insert("W20".into(), Box::new(Sess::<W20Ops> { slots: HashMap::new(), cfgs: HashMap::new(), chain: None }));
         sessions.insert("W72".into(), Box::new(Sess::<W72Ops> { slots: HashMap::new(), cfgs: HashMap::new(), chain: None }));
+        sessions.insert("N5".into(), Box::new(Sess::<N5Ops> { slots: HashMap::new(), cfgs: HashMap::new(), chain: None }));
         Runner { sessions, slot_shape: HashMap::new(), subs: HashMap::new(), subs_i: HashMap::new() }
     }
 
@@ -519,6 +520,7 @@ impl Runner {
             "R4" => R4Ops::fields(),
             "W20" => W20Ops::fields(),
             "W72" => W72Ops::fields(),
+            "N5" => N5Ops::fields(),
             _ => return "bad-shape".into(),
         };
         let got: Vec<String> = want.iter().map(|(k, a)| format!("{}:{}", k, if *a { "a" } else { "n" })).collect();
